@@ -25,6 +25,11 @@ Bounded-exhaustive check of `add_measures`, `tie_notes`, `find_tuplets`, `fill_r
                            value) or a value that converts back to d; a plain or dotted value is found
   split-pieces             find_tie_split returns None or <= max_splits+1 contiguous pieces from start
                            to end whose symbolic durations evaluate to their lengths
+
+Edit cases (spaces edit-requery*) run a first pass, then move one untyped note or change the divisions
+through the public API, then run a second pass with the same clauses evaluated against the edited
+part (symbolic durations that the edit itself invalidates - values stored by the first pass on objects
+whose divisions the user changed afterwards - are not compared).
 """
 import itertools
 from fractions import Fraction as F
@@ -39,7 +44,9 @@ RULE = (
     "oracle evaluated after every operation; an estimator case is a (divisions, duration range) block, "
     "every duration one state; a split case is one (divisions, start) with every duration one state; "
     "non-trivial = a measure was added and a note was split or a rest was added / the estimate is "
-    "non-empty / a split was found"
+    "non-empty / a split was found; an edit case is a part case plus one edit (a note moved to another "
+    "(onset, end), or other divisions) and a second operation sequence, the oracle again evaluated after "
+    "every operation, non-trivial = the edit changes the notated value of a note"
 )
 ASSUMPTIONS = [
     "the first time signature stands at the first time point (0); bar lines implied by the signatures fall on divisions",
@@ -53,6 +60,10 @@ ASSUMPTIONS = [
     "split, how many pieces, ids of new notes, the voice of filled rests and the fate of slurs are not compared",
     "the symbolic duration of a note that spans a change of divisions is not compared",
     "order of note-array rows with equal onset and pitch is not compared",
+    "edit cases: the moved note has, before the edit, a plain or dotted notated value and lies inside one bar, so no "
+    "operation stores a symbolic duration on it and the library keeps estimating it from the numeric duration; after a "
+    "change of divisions the symbolic durations stored earlier (rests, tied pieces, notes that are not plain or cross a "
+    "bar line) are not compared; in the second pass tie_notes only runs after add_measures",
 ]
 CHUNK = 16
 
@@ -63,6 +74,8 @@ OPS = {
     "R": ("fill_rests", lambda S, p: S.fill_rests(p, measurewise=True)),
     "G": ("fill_rests", lambda S, p: S.fill_rests(p, measurewise=False)),
     "S": ("sanitize_part", lambda S, p: S.sanitize_part(p)),
+    # query only: the oracle reads symbolic_duration / duration_from_symbolic of every note
+    "Q": ("symbolic_duration", lambda S, p: None),
 }
 
 
@@ -147,7 +160,7 @@ def _pitch_key(n):
     return (getattr(n, "step", None), getattr(n, "alter", None) or 0, getattr(n, "octave", None))
 
 
-def check_notes(res, case, part, where, tied):
+def check_notes(res, case, part, where, tied, skip=()):
     import partitura.score as S
 
     gen = list(part.iter_all(S.GenericNote, include_subclasses=True))
@@ -189,6 +202,8 @@ def check_notes(res, case, part, where, tied):
         q = M.div_at(dv, s)
         if e > s and M.div_at(dv, e - 1) != q:
             continue
+        if any(g is x for x in skip):
+            continue
         for label, sd in (("stored", g._sym_dur), ("property", g.symbolic_duration)):
             if not sd:
                 continue
@@ -214,6 +229,42 @@ def check_notes(res, case, part, where, tied):
     return pieces
 
 
+def run_ops(res, S, case, part, ms, ops, ref, st, skip=()):
+    """run the operations `ops` on the part, evaluating the oracle (reference: `case`, note rows `ref`)
+    after every one; `st` carries names/before (last note array), tied, added, pieces, done"""
+    for op in ops:
+        fname, fn = OPS[op]
+        where = "GenericNote.symbolic_duration" if op == "Q" else "score.py:%s" % fname
+        res.transitions += 1
+        ok, _ = guarded(res, "total:%s" % fname, fn, S, part)
+        if not ok:
+            st["done"] += op + "!"
+            break
+        st["done"] += op
+        res.states += 1
+        if op == "A":
+            st["added"] = check_measures(res, case, part, ms, where)
+        ok, v = guarded(res, "note-array", full_rows, part)
+        if not ok:
+            break
+        names2, after = v
+        if key_rows(names2, after) != ref:
+            res.fail("note-array-unchanged", expected=ref, observed=key_rows(names2, after), where=where,
+                     detail="ops so far %s" % st["done"])
+            break
+        if op != "A" and (names2 != st["names"] or after != st["before"]):
+            diff = [(a, b) for a, b in zip(st["before"], after) if a != b][:2]
+            res.fail("note-array-unchanged", expected="identical rows", observed=diff, where=where,
+                     detail="ops so far %s" % st["done"])
+            break
+        st["names"], st["before"] = names2, after
+        if op == "T":
+            st["tied"] = True
+        st["pieces"] = check_notes(res, case, part, where, st["tied"], skip)
+        if res.violations:
+            break
+
+
 def eval_part(case):
     import partitura.score as S
 
@@ -228,46 +279,82 @@ def eval_part(case):
     if key_rows(names, before) != ref:
         # the generator's own reading of the input is wrong: a harness problem, not a finding
         raise AssertionError("input note array %r != reference %r" % (key_rows(names, before), ref))
-    tied = False
-    added = 0
-    n_rests = 0
-    pieces = 0
-    done = ""
-    for op in case["ops"]:
-        fname, fn = OPS[op]
-        where = "score.py:%s" % fname
-        res.transitions += 1
-        ok, _ = guarded(res, "total:%s" % fname, fn, S, part)
-        if not ok:
-            done += op + "!"
-            break
-        done += op
-        res.states += 1
-        if op == "A":
-            added = check_measures(res, case, part, ms, where)
-        ok, v = guarded(res, "note-array", full_rows, part)
-        if not ok:
-            break
-        names2, after = v
-        if key_rows(names2, after) != ref:
-            res.fail("note-array-unchanged", expected=ref, observed=key_rows(names2, after), where=where,
-                     detail="ops so far %s" % done)
-            break
-        if op != "A" and (names2 != names or after != before):
-            diff = [(a, b) for a, b in zip(before, after) if a != b][:2]
-            res.fail("note-array-unchanged", expected="identical rows", observed=diff, where=where,
-                     detail="ops so far %s" % done)
-            break
-        names, before = names2, after
-        if op == "T":
-            tied = True
-        pieces = check_notes(res, case, part, where, tied)
-        if res.violations:
-            break
+    st = dict(names=names, before=before, tied=False, added=0, pieces=0, done="")
+    run_ops(res, S, case, part, ms, case["ops"], ref, st)
+    done, added, pieces = st["done"], st["added"], st["pieces"]
     n_rests = sum(1 for _ in part.iter_all(S.Rest))
     res.states = max(res.states, 1)
     res.nontrivial = bool(added and (pieces or n_rests))
     res.outcome = "part %s new=%s pieces=%s rests=%s" % (done if "!" in done else len(done), min(added, 3), min(pieces, 3), min(n_rests, 3))
+    return res
+
+
+def apply_edit(part, notes, ed):
+    if ed[0] == "span":
+        o = notes[ed[1]]
+        if ed[2] == o.start.t:
+            # only the end moves: the way tie_notes itself shortens a note
+            part.remove(o, "end")
+            part.add(o, end=ed[3])
+        else:
+            part.remove(o)
+            part.add(o, ed[2], ed[3])
+    else:
+        part.set_quarter_duration(0, ed[1])
+
+
+def eval_edit(case):
+    import partitura.score as S
+
+    res = CaseResult(states=0, transitions=0, traces=2)
+    part, notes, ms = build(case)
+    ref = M.ref_rows(case)
+    ok, v = guarded(res, "note-array", full_rows, part)
+    if not ok:
+        res.outcome = "note-array-raises"
+        return res
+    names, before = v
+    if key_rows(names, before) != ref:
+        raise AssertionError("input note array %r != reference %r" % (key_rows(names, before), ref))
+    st = dict(names=names, before=before, tied=False, added=0, pieces=0, done="")
+    ed = case["edit"]
+    run_ops(res, S, case, part, ms, case["ops"], ref, st)
+    if not res.violations and "!" not in st["done"]:
+        c2 = M.edited_case(case)
+        ref2 = M.ref_rows(c2)
+        skip = []
+        if ed[0] == "div":
+            # symbolic durations stored by the first pass were right under the old divisions; the user
+            # changed the divisions, so only the notes the library keeps estimating are compared
+            keep = [notes[i] for i in M.untyped_notes(case)]
+            skip = [g for g in part.iter_all(S.GenericNote, include_subclasses=True) if not any(g is k for k in keep)]
+        if "A" in case["ops"]:
+            ms2 = sorted(part.measures, key=lambda m: (m.start.t, m.end.t))
+            if [[m.start.t, m.end.t] for m in ms2] != c2["ms"]:
+                raise AssertionError("measures after the first pass %r != reference %r" % ([[m.start.t, m.end.t] for m in ms2], c2["ms"]))
+        else:
+            ms2 = ms
+        res.transitions += 1
+        ok, _ = guarded(res, "total:edit", apply_edit, part, notes, ed)
+        if ok:
+            st["done"] += "|"
+            ok, v = guarded(res, "note-array", full_rows, part)
+        if ok:
+            names, before = v
+            if key_rows(names, before) != ref2:
+                # Part.add / Part.remove / set_quarter_duration are not the subject of this property
+                raise AssertionError("note array after the edit %r != reference %r" % (key_rows(names, before), ref2))
+            st.update(names=names, before=before, tied=False, added=0)
+            run_ops(res, S, c2, part, ms2, case["ops2"], ref2, st, skip)
+    done, added, pieces = st["done"], st["added"], st["pieces"]
+    n_rests = sum(1 for _ in part.iter_all(S.Rest))
+    res.states = max(res.states, 1)
+    if ed[0] == "span":
+        n = case["notes"][ed[1]]
+        res.nontrivial = (ed[3] - ed[2]) != (n[1] - n[0])
+    else:
+        res.nontrivial = True
+    res.outcome = "edit %s %s new=%s pieces=%s rests=%s" % (ed[0], done if "!" in done else len(done), min(added, 3), min(pieces, 3), min(n_rests, 3))
     return res
 
 
@@ -416,6 +503,8 @@ def eval_case(case):
     k = case["k"]
     if k == "part":
         return eval_part(case)
+    if k == "edit":
+        return eval_edit(case)
     if k == "est":
         return eval_est(case)
     if k == "split":
@@ -561,6 +650,9 @@ def gen_two_notes(qs, span, lays, orders, sh):
             ts, ms = layout(q, lay)
             for ia, a in enumerate(ivs):
                 for b in ivs[ia:]:
+                    # the order advances by one per (voice pattern, pitch) and by one more per pair (7 in
+                    # all, coprime to the number of orders), so that every voice pattern meets every order
+                    k += 1
                     for (v0, s0, v1, s1) in VS2:
                         for p1 in (0, 1):
                             k += 1
@@ -586,6 +678,9 @@ def gen_three_notes(qs, span, lays, orders, sh):
                 for ib in range(ia, len(ivs)):
                     b = ivs[ib]
                     for c3 in ivs[ib:]:
+                        # two extra steps per triple (5 in all, coprime to the number of orders): every
+                        # voice pattern meets every operation order
+                        k += 2
                         for vs in VS3:
                             k += 1
                             if not sh.take():
@@ -667,6 +762,69 @@ def gen_divchange(orders, sh):
                             yield c
 
 
+def gen_voice_overlap(cfgs, n, orders, sh):
+    """n notes of one voice and staff (different pitches), every unordered n-tuple of (onset, end) on
+    the division grid inside one bar: chords, nested and overlapping notes, gaps before, between, after"""
+    k = 0
+    for q, sig in cfgs:
+        bar = int(bar_q(sig) * q)
+        ts = [[0] + list(TS[sig])]
+        for combo in itertools.combinations_with_replacement(intervals(bar), n):
+            k += 1
+            if not sh.take():
+                continue
+            notes = [[a, b, i, 1, 1] for i, (a, b) in enumerate(combo)]
+            c = mk([[0, q]], ts, [], notes, orders[k % len(orders)])
+            if valid(c):
+                yield c
+
+
+EDIT_DIVS = [1, 2, 3, 4, 6, 8]
+EDIT_OPS = [("Q", "Q"), ("Q", "ATURS"), ("ATUR", "ATURS")]
+EDIT_OPS_WIDE = [(a, b) for a in ("Q", "AT", "ATUR", "AUGS") for b in ("Q", "ATURS", "ATUGS", "ARS")]
+
+
+def gen_edit(qs, lays, span, moves, others, op_pairs, cycle, sh):
+    """first pass, one edit, second pass.  The target note: every (onset, end) within `span` divisions that
+    is a plain or dotted value inside one bar.  Edits: moves == "end": every other end; "all": every other
+    (onset, end) within the span; always: every other divisions value of EDIT_DIVS.  others: no second note,
+    or (True) also every second note of the same voice on the quarter grid.  op_pairs: all of them for
+    every edit (cycle False) or one per edit in turn (cycle True)"""
+    k = 0
+    for q in qs:
+        ivs = intervals(span)
+        seconds = [None]
+        if others:
+            seconds += [(a * q, b * q) for a, b in intervals(span // q)]
+        for lay in lays:
+            ts, ms = layout(q, lay)
+            for (s, e) in ivs:
+                for sec in seconds:
+                    notes = [[s, e, 0, 1, 1]]
+                    if sec is not None:
+                        notes.append([sec[0], sec[1], 1, 1, 1])
+                    base = mk([[0, q]], ts, ms, notes, "A")
+                    if not valid(base) or 0 not in M.untyped_notes(base):
+                        continue
+                    if moves == "end":
+                        edits = [["span", 0, s, e2] for e2 in range(s + 1, span + 1) if e2 != e]
+                    else:
+                        edits = [["span", 0, s2, e2] for s2, e2 in ivs if (s2, e2) != (s, e)]
+                    edits += [["div", q2] for q2 in EDIT_DIVS if q2 != q]
+                    k += 1
+                    for ed in edits:
+                        k += 1
+                        for j, (o1, o2) in enumerate(op_pairs):
+                            if cycle and j != k % len(op_pairs):
+                                continue
+                            if not sh.take():
+                                continue
+                            c = dict(base, k="edit", ops=o1, edit=ed, ops2=o2)
+                            if "A" in o2 and not valid(M.edited_case(c)):
+                                continue
+                            yield c
+
+
 def gen_est(divs, per=512):
     for div in divs:
         hi = 16 * div
@@ -745,6 +903,26 @@ def spaces(tier, seed):
     add("divisions-change", lambda sh: gen_divchange(ORDERS[:2], sh), 6,
         "divisions change (2->4, 4->2, 2->3, 4->6, 1->2, 3->1) at the first bar line of 2/4 or 3/4; one note, every onset in the first "
         "two bars and every end within three bars")
+    # -- several notes of one voice inside a bar (overlaps, nesting, gaps) under fill_rests
+    add("voice-overlap", lambda sh: gen_voice_overlap([(2, "3/4")], 3, ["AR"], sh), 1,
+        "divs 2, one bar of 3/4 (6 divisions); three notes of one voice and staff, every unordered triple of (onset, end) inside the bar; "
+        "ops add_measures, fill_rests(measurewise)")
+    VO = ["AR", "ATR", "ARTUS", "AUTRS", "AGR", "ARG"]
+    add("voice-overlap-wide",
+        lambda sh: itertools.chain(gen_voice_overlap([(2, "4/4"), (4, "2/4")], 3, VO, sh),
+                                   gen_voice_overlap([(1, "4/4"), (2, "3/4")], 4, VO, sh)), 16,
+        "notes of one voice and staff inside one bar, every unordered tuple of (onset, end): three notes in 8 divisions (divs 2 in 4/4, "
+        "divs 4 in 2/4), four notes in 4 or 6 divisions (divs 1 in 4/4, divs 2 in 3/4); operation orders %s cycled" % (VO,))
+    # -- edit, then normalise / query again
+    add("edit-requery", lambda sh: gen_edit([2], LAYOUTS[:2], 12, "end", False, EDIT_OPS, False, sh), 1,
+        "divs 2 x layouts 44, 34-24 x one note, every (onset, end) within 12 divisions that is a plain or dotted value inside one bar; "
+        "edit: every other end within 12 divisions (Part.remove(note, 'end'), Part.add(note, end=...)) or "
+        "Part.set_quarter_duration(0, q2) for every other q2 of %s; (first pass, second pass) each of %s" % (EDIT_DIVS, EDIT_OPS))
+    add("edit-requery-wide",
+        lambda sh: gen_edit([2, 4], LAYOUTS[:2], 8, "all", True, EDIT_OPS_WIDE, True, sh), 16,
+        "divs {2,4} x layouts 44, 34-24 x target note as in edit-requery within 8 divisions x no second note or every second note of the "
+        "same voice on the quarter grid; edit: the target moved to every other (onset, end) within 8 divisions (Part.remove, Part.add) or "
+        "every other divisions value of %s; first pass in {Q, AT, ATUR, AUGS} x second pass in {Q, ATURS, ATUGS, ARS}, pairs cycled" % (EDIT_DIVS,))
     return sp
 
 
